@@ -11,7 +11,7 @@ prop("C03", pkg="c03", fuzz=[("FuzzProtoRoundTrip", 60)],
           "oracle; its executions are added to evaluations. "
           "All nine defect classes this check found (KF-C03-001..009) are repaired in /repo (59a4758, 4183846, 63d287d, ede0efc, f520591, 4eb59c8, 4b53871, 8ad6b3b, d34f12d): "
           "no generator avoidance or comparer tolerance is active, the whole domain is generated and excluded_known is empty; a class listed as 'known' again would be avoided / tolerated and counted there.",
-     quick=dict(shards=16, scale=2, timeout=900),
+     quick=dict(shards=16, scale=1.5, timeout=900),
      thorough=dict(shards=16, scale=10, timeout=3000),
      technique="property-based testing (pgregory.net/rapid): generated Go types (reflect.StructOf + static corpus) x generated values, round-trip / size / determinism oracle, "
                "journal-supervised shards; native go fuzzing (go test -fuzz) with the same oracle on decoded values in the thorough tier",
